@@ -10,10 +10,13 @@ for mp in sorted(glob.glob(V + '/seeded/*/meta.json'), key=lambda p: (os.path.ba
     files = sorted(set(re.findall(r'^\+\+\+ b/(\S+)', patch, re.M)))
     summary = m.get('summary') or ''
     det = m.get('detected_by', {})
-    by = '; '.join('%s: %s' % (p, ', '.join(sorted({r.split('@')[0] for r in v}))) for p, v in sorted(det.items())) or '**missed**'
+    by = '; '.join('%s: %s' % (p, ', '.join(sorted({r.split('@')[0] for r in v}))) for p, v in sorted(det.items()))
+    if not by and m.get('analysis_errors'):
+        by = '*undecided* (exit 2, ANALYSIS-ERROR): ' + '; '.join(sorted({e.split(' ', 2)[1] + ' ' + e.split(' ', 2)[2][:110] for e in m['analysis_errors']})).replace('|', '/')
+    by = by or '**missed**'
     rows.append('| %s | %s | %s | %s | %s |' % (m['id'], m['property'], ', '.join(f.split('/')[-1] for f in files), summary.replace('|', '/'), by))
 block = ['<!-- SEED-MATRIX-BEGIN -->', '| seed | property | file(s) | change | reported by (check: rules) |', '|---|---|---|---|---|'] + rows + \
-        ['', '%d seeded changes, %d reported by at least one check.' % (len(rows), sum(1 for r in rows if '**missed**' not in r)), '<!-- SEED-MATRIX-END -->']
+        ['', '%d seeded changes: %d reported as VIOLATION by at least one check, %d undecided (ANALYSIS-ERROR, exit 2), %d missed.' % (len(rows), sum(1 for r in rows if '**missed**' not in r and '*undecided*' not in r), sum(1 for r in rows if '*undecided*' in r), sum(1 for r in rows if '**missed**' in r)), '<!-- SEED-MATRIX-END -->']
 s = open(V + '/DESIGN.md').read()
 s = re.sub(r'<!-- SEED-MATRIX-BEGIN -->.*?<!-- SEED-MATRIX-END -->', lambda _: '\n'.join(block), s, flags=re.S)
 open(V + '/DESIGN.md', 'w').write(s)
